@@ -23,6 +23,24 @@ Proof. apply Forall_forall. intros r H. apply in_rev in H. apply in_seq in H. li
    the state transformations on symbolic states) *)
 #[local] Strategy expand [cipher cipher_w inv_cipher inv_cipher_w].
 
+Lemma fl_cons {A B} (f : A -> B -> A) b l a : fold_left f (b :: l) a = fold_left f l (f a b).
+Proof. reflexivity. Qed.
+Lemma fl_one {A B} (f : A -> B -> A) b a : fold_left f [b] a = f a b.
+Proof. reflexivity. Qed.
+Lemma decrypt_block_unfold T block rks : length block = 16%nat ->
+  decrypt_block T block rks =
+  Ok (Model.add_round_key (Model.inv_sub_bytes T (Model.inv_shift_rows
+        (fold_left (Model.dec_round T rks) (rev (seq 1 (length rks - 1 - 1)))
+           (Model.add_round_key block (nth (length rks - 1) rks []))))) (nth 0 rks [])).
+Proof. intro L. unfold decrypt_block. rewrite L. reflexivity. Qed.
+Lemma inv_cipher_unfold key block :
+  inv_cipher key block =
+  Spec.add_round_key (Spec.inv_sub_bytes (Spec.inv_shift_rows
+     (fold_left (Spec.dec_round (key_expansion key)) (rev (seq 1 (rounds key - 1)))
+        (Spec.add_round_key block (round_key (key_expansion key) (rounds key))))))
+     (round_key (key_expansion key) 0).
+Proof. reflexivity. Qed.
+
 Section Key.
   Variable key : bytes.
   Hypothesis K : key_len_ok key = true.
@@ -101,10 +119,9 @@ Section Key.
   Theorem decrypt_block_eq block : wf16 block ->
     decrypt_block spec_tables block rks = Ok (inv_cipher key block).
   Proof.
-    intros H. unfold decrypt_block. destruct H as [L Bb]. rewrite L. cbn [Nat.eqb negb].
-    rewrite rks_len. assert (H : wf16 block) by (split; assumption).
-    unfold inv_cipher, inv_cipher_w.  
-    rewrite !round_keys_nth by (pose proof nr_pos; lia). 
+    intros H. rewrite decrypt_block_unfold by apply H. rewrite inv_cipher_unfold. f_equal.
+    rewrite rks_len.
+    rewrite !round_keys_nth by (pose proof nr_pos; lia).
     rewrite (add_round_key_eq block (round_key w nr)) by (try exact H; apply rk_wf; lia).
     destruct (fold_inv_eq (Model.dec_round spec_tables (round_keys_spec key)) (Spec.dec_round w) wf16
                (fun r => r <= nr)%nat (rev (seq 1 (nr - 1))) (Spec.add_round_key block (round_key w nr))) as [E W].
@@ -112,7 +129,7 @@ Section Key.
     - apply add_round_key_wf. exact H. apply rk_wf. lia.
     - apply rev_seq_le.
     - rewrite E. rewrite inv_shift_rows_eq by (apply W). rewrite inv_sub_bytes_eq by (apply inv_shift_rows_wf, W).
-      rewrite add_round_key_eq. reflexivity. apply inv_sub_bytes_wf, inv_shift_rows_wf, W. apply rk_wf. lia.
+      apply add_round_key_eq. apply inv_sub_bytes_wf, inv_shift_rows_wf, W. apply rk_wf. lia.
   Qed.
 
   Lemma cipher_wf block : wf16 block -> wf16 (cipher key block).
@@ -143,66 +160,79 @@ Section Key.
   Lemma ark_cancel st rk : wf16 st -> wf16 rk -> Spec.add_round_key (Spec.add_round_key st rk) rk = st.
   Proof. intros [L _] [L' _]. apply xor_bytes_cancel. congruence. Qed.
 
+  Lemma enc_round_SR st r :
+    Spec.enc_round w st r = Spec.add_round_key (Spec.mix_columns (SR st)) (round_key w r).
+  Proof. reflexivity. Qed.
+  Lemma dec_round_ISR st r :
+    Spec.dec_round w st r = Spec.inv_mix_columns (Spec.add_round_key (ISR st) (round_key w r)).
+  Proof. reflexivity. Qed.
+  Lemma cipher_SR block :
+    cipher key block = Spec.add_round_key
+      (SR (fold_left (Spec.enc_round w) (seq 1 (nr - 1)) (Spec.add_round_key block (round_key w 0)))) (round_key w nr).
+  Proof. reflexivity. Qed.
+  Lemma inv_cipher_ISR block :
+    inv_cipher key block = Spec.add_round_key
+      (ISR (fold_left (Spec.dec_round w) (rev (seq 1 (nr - 1))) (Spec.add_round_key block (round_key w nr)))) (round_key w 0).
+  Proof. reflexivity. Qed.
+  Lemma SR_wf st : wf16 st -> wf16 (SR st).
+  Proof. intro H. apply shift_rows_wf, sub_bytes_wf, H. Qed.
+  Lemma ISR_wf st : wf16 st -> wf16 (ISR st).
+  Proof. intro H. apply inv_sub_bytes_wf, inv_shift_rows_wf, H. Qed.
+
+  Lemma dec_enc_step z r : wf16 z -> (r <= nr)%nat -> Spec.dec_round w (SR (Spec.enc_round w z r)) r = SR z.
+  Proof.
+    intros Z R. rewrite dec_round_ISR, enc_round_SR.
+    assert (S1 : wf16 (SR z)) by (apply SR_wf, Z).
+    rewrite ISR_SR by (apply add_round_key_wf; [apply mix_columns_wf, S1 | apply rk_wf, R]).
+    rewrite ark_cancel by (try apply mix_columns_wf, S1; apply rk_wf, R).
+    apply inv_mix_columns_mix_columns, S1.
+  Qed.
+  Lemma enc_dec_step z r : wf16 z -> (r <= nr)%nat -> Spec.enc_round w (ISR (Spec.dec_round w z r)) r = ISR z.
+  Proof.
+    intros Z R. rewrite enc_round_SR, dec_round_ISR.
+    assert (S1 : wf16 (ISR z)) by (apply ISR_wf, Z).
+    assert (S2 : wf16 (Spec.add_round_key (ISR z) (round_key w r))) by (apply add_round_key_wf; [exact S1 | apply rk_wf, R]).
+    rewrite SR_ISR by (apply inv_mix_columns_wf, S2).
+    rewrite mix_columns_inv_mix_columns by exact S2.
+    apply ark_cancel. exact S1. apply rk_wf, R.
+  Qed.
+
   Lemma dec_enc_rounds l : Forall (fun r => r <= nr)%nat l -> forall st, wf16 st ->
     ISR (fold_left (Spec.dec_round w) (rev l) (SR (fold_left (Spec.enc_round w) l st))) = st.
   Proof.
     induction l as [|r l IH] using rev_ind; intros F st H.
-    - cbn. apply ISR_SR, H.
+    - change (ISR (SR st) = st). apply ISR_SR, H.
     - apply Forall_app in F. destruct F as [F Fr]. inversion Fr as [|? ? R _]; subst.
-      rewrite rev_app_distr. cbn [rev app fold_left]. rewrite fold_left_app. cbn [fold_left].
-      set (z := fold_left (Spec.enc_round w) l st).
-      assert (Z : wf16 z) by (apply fold_enc_wf; assumption).
-      assert (E : Spec.dec_round w (SR (Spec.enc_round w z r)) r = SR z).
-      { unfold Spec.dec_round, Spec.enc_round. fold (SR z).
-        fold (ISR (SR (Spec.add_round_key (Spec.mix_columns (SR z)) (round_key w r)))).
-        assert (S1 : wf16 (SR z)) by (apply shift_rows_wf, sub_bytes_wf, Z).
-        rewrite ISR_SR by (apply add_round_key_wf; [apply mix_columns_wf, S1 | apply rk_wf, R]).
-        rewrite ark_cancel by (try apply mix_columns_wf, S1; apply rk_wf, R).
-        apply inv_mix_columns_mix_columns, S1. }
-      rewrite E. apply IH; assumption.
+      rewrite rev_app_distr. rewrite (fold_left_app (Spec.enc_round w)).
+      change (rev [r] ++ rev l) with (r :: rev l). rewrite fl_cons, fl_one.
+      rewrite dec_enc_step by (try apply fold_enc_wf; assumption).
+      apply IH; assumption.
   Qed.
   Lemma enc_dec_rounds l : Forall (fun r => r <= nr)%nat l -> forall st, wf16 st ->
     SR (fold_left (Spec.enc_round w) l (ISR (fold_left (Spec.dec_round w) (rev l) st))) = st.
   Proof.
     induction l as [|r l IH]; intros F st H.
-    - cbn. apply SR_ISR, H.
+    - change (SR (ISR st) = st). apply SR_ISR, H.
     - inversion F as [|? ? R F']; subst.
-      cbn [rev]. rewrite fold_left_app. cbn [fold_left].
-      set (z := fold_left (Spec.dec_round w) (rev l) st).
-      assert (Z : wf16 z) by (apply fold_dec_wf; [assumption | apply Forall_rev, F']).
-      assert (E : Spec.enc_round w (ISR (Spec.dec_round w z r)) r = ISR z).
-      { unfold Spec.dec_round, Spec.enc_round. fold (ISR z).
-        fold (SR (ISR (Spec.inv_mix_columns (Spec.add_round_key (ISR z) (round_key w r))))).
-        assert (S1 : wf16 (ISR z)) by (apply inv_sub_bytes_wf, inv_shift_rows_wf, Z).
-        assert (S2 : wf16 (Spec.add_round_key (ISR z) (round_key w r))) by (apply add_round_key_wf; [exact S1 | apply rk_wf, R]).
-        rewrite SR_ISR by (apply inv_mix_columns_wf, S2).
-        rewrite mix_columns_inv_mix_columns by exact S2.
-        apply ark_cancel. exact S1. apply rk_wf, R. }
-      rewrite E. apply IH; assumption.
+      change (rev (r :: l)) with (rev l ++ [r]). rewrite (fold_left_app (Spec.dec_round w)). rewrite fl_cons, fl_one.
+      rewrite enc_dec_step by (try (apply fold_dec_wf; [assumption | apply Forall_rev, F']); assumption).
+      apply IH; assumption.
   Qed.
 
   Theorem inv_cipher_cipher block : wf16 block -> inv_cipher key (cipher key block) = block.
   Proof.
-    intro H. unfold inv_cipher, cipher, inv_cipher_w, cipher_w. 
-    set (st0 := Spec.add_round_key block (round_key w 0)).
-    assert (S0 : wf16 st0) by (apply add_round_key_wf; [exact H | apply rk_wf; lia]).
-    set (y := fold_left (Spec.enc_round w) (seq 1 (nr - 1)) st0).
-    assert (Y : wf16 y) by (apply fold_enc_wf; [exact S0 | apply seq_le]).
-    fold (SR y). rewrite ark_cancel by (try apply shift_rows_wf, sub_bytes_wf, Y; apply rk_wf; lia).
-    fold (ISR (fold_left (Spec.dec_round w) (rev (seq 1 (nr - 1))) (SR y))).
-    subst y. rewrite dec_enc_rounds by (try apply seq_le; exact S0).
-    subst st0. apply ark_cancel. exact H. apply rk_wf. lia.
+    intro H. rewrite inv_cipher_ISR, cipher_SR.
+    assert (S0 : wf16 (Spec.add_round_key block (round_key w 0))) by (apply add_round_key_wf; [exact H | apply rk_wf; lia]).
+    rewrite ark_cancel by (try (apply SR_wf, fold_enc_wf; [exact S0 | apply seq_le]); apply rk_wf; lia).
+    rewrite dec_enc_rounds by (try apply seq_le; exact S0).
+    apply ark_cancel. exact H. apply rk_wf. lia.
   Qed.
   Theorem cipher_inv_cipher block : wf16 block -> cipher key (inv_cipher key block) = block.
   Proof.
-    intro H. unfold inv_cipher, cipher, inv_cipher_w, cipher_w. 
-    set (st0 := Spec.add_round_key block (round_key w nr)).
-    assert (S0 : wf16 st0) by (apply add_round_key_wf; [exact H | apply rk_wf; lia]).
-    set (y := fold_left (Spec.dec_round w) (rev (seq 1 (nr - 1))) st0).
-    assert (Y : wf16 y) by (apply fold_dec_wf; [exact S0 | apply rev_seq_le]).
-    fold (ISR y). rewrite ark_cancel by (try apply inv_sub_bytes_wf, inv_shift_rows_wf, Y; apply rk_wf; lia).
-    fold (SR (fold_left (Spec.enc_round w) (seq 1 (nr - 1)) (ISR y))).
-    subst y. rewrite enc_dec_rounds by (try apply seq_le; exact S0).
-    subst st0. apply ark_cancel. exact H. apply rk_wf. lia.
+    intro H. rewrite cipher_SR, inv_cipher_ISR.
+    assert (S0 : wf16 (Spec.add_round_key block (round_key w nr))) by (apply add_round_key_wf; [exact H | apply rk_wf; lia]).
+    rewrite ark_cancel by (try (apply ISR_wf, fold_dec_wf; [exact S0 | apply rev_seq_le]); apply rk_wf; lia).
+    rewrite enc_dec_rounds by (try apply seq_le; exact S0).
+    apply ark_cancel. exact H. apply rk_wf. lia.
   Qed.
 End Key.
